@@ -297,7 +297,7 @@ fn rand_literal(r: &mut Rng, level: usize, vars: &[&str], cuts: bool, depth: usi
         //  DESIGN.md 8.26.  Cuts inside top-level alternatives are in the fixed programs of c02_cut.)
         14 => if cuts && depth == 0 { "!".to_string() } else { rand_call(r, level, vars) },
         15 => "fail".to_string(),
-        16 | 17 => format!("print(<%s>, {})", vars[r.below(vars.len())]),
+        16 | 17 => if r.below(5) == 0 { format!("print_list({}, {})", rand_arg(r, vars), vars[r.below(vars.len())]) } else { format!("print(<%s>, {})", vars[r.below(vars.len())]) },
         18 => if r.below(2) == 0 { "nl".to_string() } else if r.below(2) == 0 { format!("count([{}, {}], {})", rand_arg(r, vars), rand_arg(r, vars), vars[r.below(vars.len())]) }
               else { format!("append({}, [{}], {})", rand_arg(r, vars), rand_arg(r, vars), vars[r.below(vars.len())]) },
         _ => if depth == 0 {
